@@ -34,12 +34,13 @@ GROUP = dict(
                   dict(cfg="MCSpeedProfile_quickB.cfg", emit=False, timeout=300, coverage=False)],
         "thorough": [dict(cfg="MCSpeedProfile_quickA.cfg", emit=True),
                      dict(cfg="MCSpeedProfile_gates.cfg", emit=True),
-                     dict(cfg="MCSpeedProfile_quickB_emit.cfg", emit=True, max_emit=100000, workers=16, timeout=900, coverage=False),
+                     dict(cfg="MCSpeedProfile_quickB_emit.cfg", emit=True, max_emit=30000, workers=16, timeout=900, coverage=False),
                      dict(cfg="MCSpeedProfile_thoroughA.cfg", emit=False, workers=16, timeout=1800),
                      dict(cfg="MCSpeedProfile_thoroughB.cfg", emit=False, workers=16, timeout=3600)],
     },
-    gen_n={"quick": 400, "thorough": 20000},
+    gen_n={"quick": 400, "thorough": 6000},
     per_case_ms=20000,
+    trace_timeout={"quick": 600, "thorough": 2400},
     nontrivial=nontrivial,
     rule=RULE,
     props={
